@@ -269,6 +269,21 @@ pub fn profile(name: &str, rng: &mut SmallRng) -> GenParams {
             p.len = rng.gen_range(40..=120);
             p.oversize_pct = 0;
         }
+        "evict_near" => {
+            // the live set always fits under the limit but comes close to it: overwrites, appends and rejected
+            // stores of large items must not push anything out
+            p.policy = "random".into();
+            p.nkeys = 3;
+            p.max_val = 100;
+            p.numeric_pct = 5;
+            p.oversize_pct = 0;
+            p.item_limit = 512;
+            // 3 keys x (24 + 100 + room for appends of <= 12 bytes, at most ~6 per key) < 3 x 200
+            p.mem_limit = 450;
+            p.len = rng.gen_range(40..=70);
+            p.ops = vec![("get", 18), ("set", 30), ("add", 6), ("replace", 10), ("append", 3), ("prepend", 2), ("delete", 6), ("incr", 3)];
+            p.cas_pct = 30;
+        }
         "evict_roomy" => {
             p.policy = "random".into();
             p.max_val = 30;
@@ -301,6 +316,12 @@ pub fn profile(name: &str, rng: &mut SmallRng) -> GenParams {
             p.ops = vec![("get", 25), ("set", 25), ("add", 8), ("replace", 8), ("append", 8), ("prepend", 8), ("delete", 6)];
         }
         _ => panic!("unknown profile {}", name),
+    }
+    // the eviction policy must not matter while its limit is not reached (C01, C20): a third of the
+    // histories of every other profile run behind RandomPolicy with a limit far away
+    if !name.starts_with("evict") && name != "huge" && name != "general" && rng.gen_bool(0.33) {
+        p.policy = "random".into();
+        p.mem_limit = 1 << 30;
     }
     p
 }
